@@ -383,6 +383,12 @@ func report(prop string, runs []*run, known []knownEntry, tier string, seed int,
 		"wall_s":      time.Since(start).Seconds(),
 		"violations":  violations,
 	}
+	if tier == "thorough" && writeEvidence {
+		sens := sensitivity(prop, repo, verif)
+		ev["coverage"].(map[string]interface{})["sensitivity"] = sens
+		fmt.Printf("   sensitivity matrix (informational): applied=%v detected=%v missed=%v n/a=%v\n", sens["applied"], sens["detected"], sens["missed"], sens["not_applicable"])
+		ev["wall_s"] = time.Since(start).Seconds()
+	}
 	if writeEvidence {
 		b, _ := json.MarshalIndent(ev, "", " ")
 		if err := os.WriteFile(filepath.Join(verif, "evidence", prop+".json"), b, 0o644); err != nil {
